@@ -959,3 +959,23 @@ var evalKnown = []string{
 	"(defn~f~[f]~(f~1))~(f~(fn~[a]~a))",
 	"(defn~g~[a]~(cond~(>~a~0)~(g~0~7)~a))~(g~1)",
 }
+
+// Callbacks that fail on the k-th element (mutation round 4, seeded/C05-m4 — also a C02 violation: `map`
+// over a LIST swallowed the error of every element but the first): every higher-order route × container ×
+// failing position × kind of failure, with a trace on every element so that the effect order is judged too.
+func init() {
+	fails := []string{"(undefined_zz a)", "(+ a \"s\")", "((fn [p q] p) a)", "(aget [1] a)"}
+	colls := []string{"(list 1 2 3)", "[1 2 3]", "(list 1 2 3 4)", "(cons 1 (cons 2 (list 3)))"}
+	for _, f := range fails {
+		for _, c := range colls {
+			for k := 1; k <= 4; k++ {
+				body := fmt.Sprintf("(fn [a] (trace a) (cond (== a %d) %s (* a 10)))", k, f)
+				evalFixed = append(evalFixed,
+					"(map "+body+" "+c+")",
+					"(def r (map "+body+" "+c+")) r",
+					"(def g "+body+") (def r 0) (set r (map g "+c+")) (trace 99) r",
+					"(map (fn [b] (map "+body+" "+c+")) (list 7 8))")
+			}
+		}
+	}
+}
